@@ -41,7 +41,12 @@ func visible(spec *Spec, e error, out *[]VNode) error {
 		}
 		*out = append(*out, VNode{ls, i, c})
 		if len(ls[i].Multi) > 0 {
-			bs := errbase.UnwrapMulti(c)
+			var bs []error
+			for _, b := range errbase.UnwrapMulti(c) {
+				if b != nil { // (a user type may list nil causes)
+					bs = append(bs, b)
+				}
+			}
 			if len(bs) != len(ls[i].Multi) {
 				return fmt.Errorf("real node has %d branches, model %d for %s", len(bs), len(ls[i].Multi), spec)
 			}
